@@ -1091,3 +1091,20 @@ def _in_handler(node, stop):
             return True
         cur = getattr(cur, '_parent', None)
     return False
+
+
+def flag_gate(ctx, f, test):
+    """The single positive version gate a test stands for: the test itself,
+    or - through locals, helper parameters and fields of a record built
+    from version predicates - what it was bound to.  None when it is not
+    exactly one positive gate."""
+    from psa.gates import Gate
+    g = ctx.gates.gate_of(f, test)
+    if g is not None:
+        return g
+    from psa.rules import c14
+    gs = c14._gates_of_test(ctx, f, test)
+    mins = {(m, p) for m, p in gs}
+    if len(mins) == 1 and list(mins)[0][1]:
+        return Gate(f, test, list(mins)[0][0], 'matches')
+    return None
